@@ -143,7 +143,7 @@ def coq_assumptions(properties_v, timeout=600):
 VERDICT_RE = re.compile(r"^r(\d+) = (VOk|VMismatch (\d+) \"([^\"]*)\"|VViolation (\d+) \"([^\"]*)\")\s*$")
 
 
-def eval_cases(dirpath, shard, timeout=900):
+def eval_cases(dirpath, shard, timeout=1800):
     """coqc one case file; returns list of (index, verdict dict) and an error string."""
     rc, out = sh(["timeout", str(timeout), "coqc", "-Q", os.path.join(COQ, "theories"), "VF", shard + ".v"],
                  cwd=dirpath, timeout=timeout + 30)
